@@ -179,6 +179,9 @@ func Build(w *WF, rt *Runtime) *sp.Workflow {
 			if n.Cores > 0 {
 				p.CoresPerTask = n.Cores
 			}
+			if n.Prepend != "" {
+				p.Prepend = n.Prepend
+			}
 			if n.Custom != 0 {
 				p.CustomExecute = customFunc(n)
 			}
